@@ -27,6 +27,10 @@ type caseC10 struct {
 	Name   string     `json:"name"`   // input file name
 	Input  string     `json:"input"`  // valid | bitflip | trunc
 	Target bool       `json:"target"` // a file already exists under the target name
+	// a user file already exists under the name gxz uses for its temporary
+	// file (<target>.compress / <target>.decompress): it is the user's data
+	// and must survive every run
+	TempTaken bool `json:"temptaken,omitempty"`
 	Data   gen.Recipe `json:"data"`
 }
 
@@ -57,6 +61,7 @@ func drawC10(t *rapid.T) caseC10 {
 		c.Input = "valid"
 	}
 	c.Target = rapid.IntRange(0, 3).Draw(t, "target") == 0
+	c.TempTaken = rapid.IntRange(0, 5).Draw(t, "temptaken") == 0
 	classes := []string{"tiny", "small", "medium", "medium", "k64"}
 	if rapid.IntRange(0, 5).Draw(t, "big") == 0 {
 		classes = []string{"k128"}
@@ -97,7 +102,11 @@ type c10Env struct {
 	force            bool
 	mustFail         bool
 	failedUnlink     string // temp file whose removal was made to fail
+	tempOwner        string // name of the user's file that sits under gxz's temporary name ("" = none)
+	anyExit          bool   // the scenario does not fix whether the run must succeed
 }
+
+var tempOwnerData = []byte("a user's file that happens to carry the name of gxz's temporary file\n")
 
 const bystander = "bystander.txt"
 
@@ -116,6 +125,11 @@ func (e *c10Env) populate(dir string) error {
 	}
 	if e.c.Target && e.targetName != "" {
 		if err := os.WriteFile(filepath.Join(dir, e.targetName), e.oldTarget, 0o644); err != nil {
+			return err
+		}
+	}
+	if e.tempOwner != "" {
+		if err := os.WriteFile(filepath.Join(dir, e.tempOwner), tempOwnerData, 0o644); err != nil {
 			return err
 		}
 	}
@@ -195,6 +209,9 @@ func (e *c10Env) inspect(dir string, r *ptResult, stdout []byte, killed bool, wh
 	if !bytes.Equal(files[bystander], bystanderData) {
 		return ev.Fail(desc+": the bystander file was touched", sig("inv", "bystander")...)
 	}
+	if e.tempOwner != "" && !bytes.Equal(files[e.tempOwner], tempOwnerData) {
+		return ev.Fail(fmt.Sprintf("%s: DATA LOSS: the user's file %q (not created by this run) was removed or overwritten (directory: %v)", desc, e.tempOwner, names), sig("inv", "foreign_temp_destroyed")...)
+	}
 	// (a) the data exists in at least one complete form
 	if !inputIntact && !outComplete {
 		return ev.Fail(fmt.Sprintf("%s: DATA LOSS: the input is no longer intact and no complete output exists under the target name %q (directory: %v)", desc, e.targetName, names), sig("inv", "data_loss")...)
@@ -217,12 +234,12 @@ func (e *c10Env) inspect(dir string, r *ptResult, stdout []byte, killed bool, wh
 	}
 	// (d) no temporary file (unless the injected fault hit the very call that removes it)
 	for _, n := range names {
-		if (strings.HasSuffix(n, ".compress") || strings.HasSuffix(n, ".decompress")) && n != e.failedUnlink {
+		if (strings.HasSuffix(n, ".compress") || strings.HasSuffix(n, ".decompress")) && n != e.failedUnlink && n != e.tempOwner {
 			return ev.Fail(fmt.Sprintf("%s: temporary file %q left behind", desc, n), sig("inv", "temp_left")...)
 		}
 	}
 	for _, n := range names {
-		if n != e.c.Name && n != bystander && n != e.targetName && n != e.failedUnlink {
+		if n != e.c.Name && n != bystander && n != e.targetName && n != e.failedUnlink && n != e.tempOwner {
 			return ev.Fail(fmt.Sprintf("%s: unexpected file %q", desc, n), sig("inv", "unexpected_file")...)
 		}
 	}
@@ -339,6 +356,12 @@ func checkC10(c caseC10, rec *ev.Rec) *ev.Failure {
 	if c.Target && e.targetName != "" && !e.force {
 		e.mustFail = true
 	}
+	if c.TempTaken && e.targetName != "" {
+		e.tempOwner = e.targetName + map[string]string{"compress": ".compress", "decompress": ".decompress"}[c.Op]
+		// whether gxz refuses or picks another temporary name is its choice;
+		// the invariants on the directory are what the property states
+		e.anyExit = true
+	}
 	// baseline: traced listing run
 	if err := e.populate(dir); err != nil {
 		rec.Incomplete("populate: " + err.Error())
@@ -353,10 +376,10 @@ func checkC10(c caseC10, rec *ev.Rec) *ev.Failure {
 	if f := e.inspect(dir, base, so, false, "undisturbed run"); f != nil {
 		return f
 	}
-	if e.mustFail && base.Exit == 0 {
+	if e.mustFail && base.Exit == 0 && !e.anyExit {
 		return ev.Fail(fmt.Sprintf("gxz %q (input %s, target present=%v): exit status 0, expected a failure", e.args, c.Input, c.Target), "op", c.Op, "how", "undisturbed", "inv", "must_fail")
 	}
-	if !e.mustFail && base.Exit != 0 {
+	if !e.mustFail && base.Exit != 0 && !e.anyExit {
 		return ev.Fail(fmt.Sprintf("gxz %q on valid input fails with exit status %d", e.args, base.Exit), "op", c.Op, "how", "undisturbed", "inv", "must_succeed")
 	}
 	// close calls on descriptors that were opened for writing (the output)
@@ -454,6 +477,9 @@ func checkC10(c caseC10, rec *ev.Rec) *ev.Failure {
 			rec.Class("fault@" + cl.Name + ":" + phase)
 		}
 	}
+	if e.tempOwner != "" {
+		rec.Class("temp_name_taken_by_user_file")
+	}
 	rec.Class("op="+c.Op, "fmt="+c.Fmt, "input="+c.Input, "flags="+strings.Join(c.Flags, ""), fmt.Sprintf("must_fail=%v", e.mustFail))
 	rec.Sample(c.Op+c.Input, map[string]any{"args": e.args, "input": c.Input, "target_present": c.Target, "input_len": len(e.inputBytes), "syscalls": len(base.Calls), "exit": base.Exit})
 	return nil
@@ -461,7 +487,7 @@ func checkC10(c caseC10, rec *ev.Rec) *ev.Failure {
 
 func TestC10(t *testing.T) {
 	rec := ev.New("C10", "fault_enumeration")
-	rec.Rule = "rapid draws a gxz scenario ({compress, decompress} x {xz, lzma} x subsets of {-k,-f,-c} x names with known / tar / unknown suffix x {valid, bit-flipped, truncated} input x target absent / present x content incl. > 64 KiB, plus a bystander file); the unmodified binary built from the tree runs under a ptrace tracer that numbers every system call touching the directory; per scenario: one undisturbed run, EVERY mutating call as a kill point (killed before it executes) and EVERY listed call as a fault point (ENOSPC/EIO/EACCES/EXDEV as fits), each on a fresh copy; oracle on the directory afterwards: input intact or complete output under a different final name; target name never holds a partial file; pre-existing target kept without -f; bystander untouched; not killed: no temporary file, exit != 0 => input intact, exit 0 => complete output (file or stdout) and input removed iff neither -k nor -c; corrupt / truncated / unknown-suffix / existing-target scenarios must fail; evaluations = traced runs; non-trivial = kill / fault at or after creation of the temporary file; distinct = hash(scenario, point)"
+	rec.Rule = "rapid draws a gxz scenario ({compress, decompress} x {xz, lzma} x subsets of {-k,-f,-c} x names with known / tar / unknown suffix x {valid, bit-flipped, truncated} input x target absent / present x a user file under the temporary name present / absent x content incl. > 64 KiB, plus a bystander file); the unmodified binary built from the tree runs under a ptrace tracer that numbers every system call touching the directory; per scenario: one undisturbed run, EVERY mutating call as a kill point (killed before it executes) and EVERY listed call as a fault point (ENOSPC/EIO/EACCES/EXDEV as fits), each on a fresh copy; oracle on the directory afterwards: input intact or complete output under a different final name; target name never holds a partial file; pre-existing target kept without -f; bystander and a user file under the temporary name untouched; not killed: no temporary file, exit != 0 => input intact, exit 0 => complete output (file or stdout) and input removed iff neither -k nor -c; corrupt / truncated / unknown-suffix / existing-target scenarios must fail; evaluations = traced runs; non-trivial = kill / fault at or after creation of the temporary file; distinct = hash(scenario, point)"
 	rec.Assumptions = []string{"a single system call is atomic; a kill inside a write equals a kill after a shorter write to the temporary file", "process kill, not power loss (gxz does not fsync)", "if ptrace is not permitted the check is inconclusive"}
 	drive(t, rec, drawC10, checkC10)
 }
